@@ -18,6 +18,7 @@ from gen import dexread
 from ref import cfg as R
 
 BATCH = 256
+SHIP_AGAIN_EVERY = 1        # every shipped method is analysed twice (raise to thin out the quick tier if needed)
 
 
 def extra_plans(ctx, kinds_hist="GIKSA"):
@@ -32,6 +33,13 @@ def extra_plans(ctx, kinds_hist="GIKSA"):
          {"id": "hist-n2", "n": 2, "kinds": kinds_hist, "history": M.EDITS}]
     if ctx.thorough:
         p.append({"id": "hist-n3", "n": 3, "kinds": "GIKA", "history": M.EDITS})
+    return p + again_plans(ctx)
+
+
+def again_plans(ctx, kinds="PTRXGIKS", reduced="TRXGIK", **kw):
+    """No-op history: every method analysed a second (MethodAnalysis) and third (second Analysis of the DEX) time."""
+    p = [dict({"id": "again-n%d" % n, "n": n, "kinds": kinds, "history": ("reanalyse",)}, **kw) for n in (0, 1, 2)]
+    p.append(dict({"id": "again-n3", "n": 3, "kinds": kinds if ctx.thorough else reduced, "history": ("reanalyse",)}, **kw))
     return p
 
 
@@ -180,10 +188,11 @@ def enum_plan(plan, i0, r, parts):
                     if b is None:
                         continue
                     if plan.get("history"):
-                        for e in plan["history"]:
-                            c = M.retry(b, ())
-                            c.edit = e
-                            yield c
+                        for tries, share in (tcs or [((), False)]):
+                            for e in plan["history"]:
+                                c = M.retry(b, tries, share)
+                                c.edit = e
+                                yield c
                     elif tcs is None:
                         yield b
                     else:
@@ -229,9 +238,33 @@ def _judge_one(mod, acc, b, ma, em):
     return viol
 
 
-def _judge_history(mod, acc, b, vm, em):
+def _judge_again(mod, acc, b, vm, em, again):
+    """No-op history: the SAME parsed code analysed again without any edit -- a stand-alone MethodAnalysis(vm, em) (second
+    analysis) and a second Analysis(vm) over the same DEX object (third); both judged exactly like the first."""
+    from androguard.core.analysis.analysis import Analysis, MethodAnalysis
+    rm = R.from_built(b)
+    res = []
+    for nth in ("second", "third"):
+        if nth == "second":
+            ma = MethodAnalysis(vm, em)
+        else:
+            if again.get("dx") is None:
+                again["dx"] = Analysis(vm)
+            ma = again["dx"].get_method(em)
+        obs = observe(ma, em, special=getattr(mod, "SPECIAL", False))
+        acc.n += 1
+        acc.nt_disjoint += 1
+        acc.count("reanalyses[%s]" % nth)
+        res += [(key + ":second-analysis", "%s analysis of the same parsed code: %s" % (nth, msg))
+                for key, msg in mod.judge(acc, rm, obs, b.layout, ma=ma, gen=True)]
+    return res
+
+
+def _judge_history(mod, acc, b, vm, em, again=None):
     from androguard.core import dex
     from androguard.core.analysis.analysis import MethodAnalysis
+    if b.edit == "reanalyse":
+        return _judge_again(mod, acc, b, vm, em, again if again is not None else {})
     want, pos, n = M.edited_code(b, b.edit)
     ins = list(em.get_instructions())
     new = ins[:pos] + [dex.Instruction10x(vm.CM, b"\x00\x00") for _ in range(n)] + ins[pos:]
@@ -293,16 +326,18 @@ def run_batch(mod, acc, builts):
             acc.violation(key, b.witness(), "%s\n  method: %s" % (msg, describe(b)))
 
     # history family: ONE edit through set_instructions() on the SAME EncodedMethod, then a NEW MethodAnalysis
+    again = {}
     for k, b in enumerate(builts):
         if getattr(b, "edit", None):
             em = ems[(M.CLS, M.method_name(k), "()V")]
             try:
-                res = _judge_history(mod, acc, b, vm, em)
+                res = _judge_history(mod, acc, b, vm, em, again)
             except Exception as e:      # noqa
                 res = [("analysis-raises:%s:after:set_instructions" % type(e).__name__, "%s: %s" % (type(e).__name__, e))]
             for key, msg in res:
-                acc.violation(key, b.witness(), "%s\n  method: %s, then edit %s via set_instructions and a new MethodAnalysis"
-                              % (msg, describe(b), b.edit))
+                acc.violation(key, b.witness(), "%s\n  method: %s, history: %s" % (msg, describe(b), (
+                    "analysed again without any edit" if b.edit == "reanalyse" else
+                    "edit %s via set_instructions, then a new MethodAnalysis" % b.edit)))
 
 
 def describe(b):
@@ -356,6 +391,17 @@ def run_ship(mod, ctx, acc, name, k, parts, only=None):
             acc.violation("analysis-raises:%s" % type(e).__name__, w, "%s %s%s: %s" % (cn, mn, desc, e))
             continue
         viol = mod.judge(acc, rm, obs, "aligned", ma=ma, gen=False)
+        if only is not None or ctx.thorough or n % SHIP_AGAIN_EVERY == 0:
+            # no-op history on the shipped corpus: the same parsed code analysed a second time
+            try:
+                ma2 = MethodAnalysis(vm, em)
+                obs2 = observe(ma2, em, special=getattr(mod, "SPECIAL", False))
+                viol = viol + [(key + ":second-analysis", "second analysis of the same parsed code: " + msg)
+                               for key, msg in mod.judge(acc, rm, obs2, "aligned", ma=ma2, gen=False)]
+                acc.n += 1
+                acc.count("shipped_reanalyses")
+            except Exception as e:  # noqa
+                viol = viol + [("analysis-raises:%s:second-analysis" % type(e).__name__, "%s %s%s: %s" % (cn, mn, desc, e))]
         acc.n += 1
         acc.count("shipped_methods")
         if len(obs["blocks"]) > 1 or rm.tries:
